@@ -32,15 +32,6 @@ Fixpoint stmt_ok (s : stmt) : Prop :=
   | SReturn (Some e) | SPrint _ e | SAssert e | SExpr e => expr_ok e
   end.
 
-(* a statement that cannot complete normally (used when the compiler adds no epilogue) *)
-Fixpoint always_returns (s : stmt) : bool :=
-  match s with
-  | SReturn _ => true
-  | SSeq a b => always_returns a || always_returns b
-  | SIf _ a b => always_returns a && always_returns b
-  | _ => false
-  end.
-
 Definition fn_ok (d : fn) : Prop := Forall (fun p => user_name (fst p)) (fparams d) /\ stmt_ok (fbody d).
 
 (* only used by SFor: the VM keeps the loop index in an int64, the reference counts in Z *)
